@@ -866,8 +866,14 @@ func c19Atomic(a *ChildArgs, r *rand.Rand, avoid map[string]bool, dir, mode stri
 	files := []c19File{f}
 	// every second lint case rewrites through a symbolic link: the path then names the link, the bytes live elsewhere
 	viaLink := useLint && idx%4 == 3
+	// a target that has a second name (hard link): the bytes are shared with another directory entry, which is no reason
+	// to write them in place
+	hardLink := idx%4 == 2 || idx%8 == 5
 	write := func() {
 		c19WriteFiles(dir, files)
+		if hardLink {
+			os.Link(filepath.Join(dir, f.name), filepath.Join(dir, "second_name.bak"))
+		}
 		if viaLink {
 			os.Rename(filepath.Join(dir, f.name), filepath.Join(dir, "real_"+f.name))
 			os.Symlink("real_"+f.name, filepath.Join(dir, f.name))
@@ -891,6 +897,9 @@ func c19Atomic(a *ChildArgs, r *rand.Rand, avoid map[string]bool, dir, mode stri
 	}
 	if viaLink {
 		label += "-via-symlink"
+	}
+	if hardLink {
+		label += "-hard-linked"
 	}
 	judge := func(point string, run c19Run) bool {
 		a.Rec.Count("evaluations", 1)
